@@ -56,7 +56,7 @@ impl<const N: usize, T: Send + Sync> ConIterOfArray<N, T> {
         len: usize,
     ) -> impl ExactSizeIterator<Item = T> {
         let array = &mut *self.array.get();
-        let end_idx = (begin_idx + len).min(array.len());
+        let end_idx = begin_idx.saturating_add(len).min(array.len());
         let len = end_idx - begin_idx;
 
         let ptr = array.as_mut_ptr().add(begin_idx);
@@ -93,7 +93,10 @@ impl<const N: usize, T: Send + Sync> AtomicIter<T> for ConIterOfArray<N, T> {
 
     #[inline(always)]
     fn progress_and_get_begin_idx(&self, number_to_fetch: usize) -> Option<usize> {
-        let begin_idx = self.counter().fetch_and_add(number_to_fetch);
+        // no more than `initial_len` positions are ever needed: clamping keeps the counter from wrapping for huge requests
+        let begin_idx = self
+            .counter()
+            .fetch_and_add(number_to_fetch.min(self.initial_len()));
         match begin_idx.cmp(&self.initial_len()) {
             Ordering::Less => Some(begin_idx),
             _ => None,
@@ -113,7 +116,7 @@ impl<const N: usize, T: Send + Sync> AtomicIter<T> for ConIterOfArray<N, T> {
         let begin_idx = self
             .progress_and_get_begin_idx(n)
             .unwrap_or(self.initial_len());
-        let end_idx = (begin_idx + n).min(N).max(begin_idx);
+        let end_idx = begin_idx.saturating_add(n).min(N).max(begin_idx);
 
         match begin_idx.cmp(&end_idx) {
             Ordering::Equal => None,
